@@ -29,3 +29,44 @@ Definition entry_bn (op : Z) (args : list val) : val :=
       VB (g2_marshal (jac_add fp2o (g2_mul g2_gen k1) (g2_mul g2_gen k2)))
   | _, _ => VErr
   end.
+
+(* ---------------------------------------------------------------- pairing and field entry points *)
+From DosVerif Require Import Gen.BnConsts Models.BnPairing.
+
+(* a G2 operand: ( z0 k ) = k*G2 as Mul leaves it; ( z1 k ) = the same, normalised through its
+   encoding (z = 1, t = 1); ( z2 k ) = Neg of the normalised point (z = 1, cached t = 0);
+   ( z3 k ) = Neg of the Jacobian result (z generic) *)
+Definition dec_tw (v : val) : tpt :=
+  match v with
+  | VL [VZ 0; VZ k] => let a := g2_mul g2_gen k in tpt_of_jac a fp2_one
+  | VL [VZ 1; VZ k] => let a := make_affine fp2o (g2_mul g2_gen k) in
+                       if is_inf fp2o a then mktpt fp2_zero fp2_one fp2_zero fp2_zero else tpt_of_jac a fp2_one
+  | VL [VZ 2; VZ k] => let a := make_affine fp2o (g2_mul g2_gen k) in
+                       if is_inf fp2o a then mktpt fp2_zero fp2_one fp2_zero fp2_zero
+                       else tpt_of_jac (jac_neg fp2o a) fp2_zero
+  | VL [VZ 3; VZ k] => tpt_of_jac (jac_neg fp2o (g2_mul g2_gen k)) fp2_zero
+  | _ => mktpt fp2_zero fp2_one fp2_zero fp2_zero
+  end.
+
+Definition dec_pairs (l : list val) : list (jac (K:=Fp) * tpt) :=
+  map (fun v => match v with
+                | VL [VZ k; tw] => (g1_mul g1_gen k, dec_tw tw)
+                | _ => (jac_inf fp_ops, dec_tw VNone) end) l.
+
+Definition rinv : Z := Eval vm_compute in (modinv bn_p (2 ^ 256)).
+
+Definition entry_bn2 (op : Z) (args : list val) : val :=
+  match op, args with
+  | 20, [VZ k; tw] => VB (fp12_marshal (optimal_ate (dec_tw tw) (g1_mul g1_gen k)))      (* Pair *)
+  | 21, [VL pairs] => vbool (pairing_check (dec_pairs pairs))                              (* PairingCheck *)
+  | 22, [VZ k] => VB (fp12_marshal (fp12_exp (optimal_ate (dec_tw (VL [VZ 0; VZ 1])) g1_gen) k))  (* gt^k *)
+  (* base-field primitives on values (operands are numbers < 2^256) *)
+  | 30, [VZ a; VZ b] => VZ ((a + b) mod bn_p)
+  | 31, [VZ a; VZ b] => VZ ((a - b) mod bn_p)
+  | 32, [VZ a] => VZ ((- a) mod bn_p)
+  | 33, [VZ a; VZ b] => VZ ((a * b * rinv) mod bn_p)                                       (* Montgomery product *)
+  | 34, [VZ a] => VZ ((a * 2 ^ 256) mod bn_p)                                              (* montEncode *)
+  | 35, [VZ a] => VZ ((a * rinv) mod bn_p)                                                 (* montDecode *)
+  | 36, [VZ a] => VZ ((modinv bn_p ((a * rinv) mod bn_p) * 2 ^ 256) mod bn_p)             (* Invert, Montgomery form in and out *)
+  | _, _ => entry_bn op args
+  end.
